@@ -81,6 +81,17 @@ type SeataV1PackageHeader struct {
 }
 
 func (p *RpcPackageHandler) Read(ss getty.Session, data []byte) (interface{}, int, error) {
+	if len(data) < Seatav1HeaderLength {
+		// the fixed-length header is not complete yet: wait for more data, as long as
+		// what has arrived so far still agrees with the magic code
+		for i := 0; i < len(data) && i < len(magics); i++ {
+			if data[i] != magics[i] {
+				return nil, 0, fmt.Errorf("codec decode not found magic offset")
+			}
+		}
+		return nil, 0, nil
+	}
+
 	in := bytes.NewByteBuffer(data)
 
 	header := SeataV1PackageHeader{}
@@ -99,13 +110,16 @@ func (p *RpcPackageHandler) Read(ss getty.Session, data []byte) (interface{}, in
 	header.CodecType = bytes.ReadByte(in)
 	header.CompressType = bytes.ReadByte(in)
 	header.RequestID = bytes.ReadUInt32(in)
-	headMapLength := header.HeadLength - Seatav1HeaderLength
-	header.Meta = decodeHeapMap(in, headMapLength)
-	header.BodyLength = header.TotalLength - uint32(header.HeadLength)
-
+	if header.HeadLength < Seatav1HeaderLength || header.TotalLength < uint32(header.HeadLength) {
+		return nil, 0, ErrInvalidPackage
+	}
 	if uint32(len(data)) < header.TotalLength {
 		return nil, int(header.TotalLength), nil
 	}
+
+	headMapLength := header.HeadLength - Seatav1HeaderLength
+	header.Meta = decodeHeapMap(in, headMapLength)
+	header.BodyLength = header.TotalLength - uint32(header.HeadLength)
 
 	// r := byteio.BigEndianReader{Reader: bytes.NewReader(data)}
 	rpcMessage := message.RpcMessage{
